@@ -24,6 +24,9 @@ pub fn check(f: &Facts, stats: &mut Stats) -> CheckResult {
     if (0..3).all(|k| f.recs[k].iter().any(|r| !r.terms.is_empty())) {
         stats.label("annotated-with-all-kinds");
     }
+    if f.terms.len() > 31 && f.terms.len() < 150 {
+        stats.label("ancestors>30");
+    }
     // (the Builder API ignores flags; with own v3 bytes they are present)
     let m = Model::new(f);
     let up: Vec<_> = m.ids.iter().map(|i| m.up_dist(*i)).collect();
@@ -140,6 +143,42 @@ pub fn check(f: &Facts, stats: &mut Stats) -> CheckResult {
     Ok(())
 }
 
+/// A spine of 31-40 terms (so that deep terms have more than 30 ancestors) with 1-4 side branches of
+/// depth 1-3 hanging off random spine nodes; ids are a random assignment of a dense or sparse range,
+/// so that branch ids fall between spine ids in every possible way. No diamonds: the library's route
+/// enumeration stays linear.
+fn spine_with_branches() -> impl proptest::strategy::Strategy<Value = Facts> {
+    use proptest::prelude::*;
+    (31usize..=40, proptest::collection::vec((any::<u16>(), 1usize..=3), 1..=4), proptest::collection::vec(any::<u16>(), 56), any::<bool>()).prop_map(|(len, branches, keys, sparse)| {
+        let total = len + branches.iter().map(|b| b.1).sum::<usize>();
+        // random injective id assignment
+        let mut order: Vec<(u16, usize)> = (0..total).map(|i| (keys[i % keys.len()].wrapping_add((i / keys.len()) as u16 * 7919), i)).collect();
+        order.sort();
+        let mut id_of = vec![0u32; total];
+        for (rank, (_, node)) in order.iter().enumerate() {
+            id_of[*node] = if sparse { 10 + rank as u32 * 97 + u32::from(keys[rank % keys.len()] % 90) } else { 1 + rank as u32 };
+        }
+        let mut f = Facts::default();
+        for i in 0..len {
+            f.terms.push(TermFact { id: id_of[i], name: format!("s{i}"), obsolete: false, replacement: None });
+            if i > 0 {
+                f.edges.push((id_of[i], id_of[i - 1]));
+            }
+        }
+        let mut next = len;
+        for (at, depth) in &branches {
+            let mut parent = id_of[crate::gen::pick(*at, len)];
+            for d in 0..*depth {
+                f.terms.push(TermFact { id: id_of[next], name: format!("b{next}_{d}"), obsolete: false, replacement: None });
+                f.edges.push((id_of[next], parent));
+                parent = id_of[next];
+                next += 1;
+            }
+        }
+        f
+    })
+}
+
 fn strategy(tier: Tier) -> proptest::strategy::BoxedStrategy<Facts> {
     let max = if tier == Tier::Quick { 16 } else { 22 };
     use proptest::prelude::*;
@@ -151,6 +190,7 @@ fn strategy(tier: Tier) -> proptest::strategy::BoxedStrategy<Facts> {
         // more than 30 ancestors (beyond the inline capacity of an id group): chains and fans only,
         // the library's route enumeration is exponential in the number of alternative routes
         1 => gen::facts(GenCfg::small().terms(32, 46).recs(2).shapes(&[1, 3, 1, 1])),
+        1 => spine_with_branches(),
     ]
     .boxed()
 }
@@ -172,7 +212,7 @@ impl Property for C11 {
         }
     }
     fn required_labels(&self, _tier: Tier) -> Vec<&'static str> {
-        vec!["nontrivial", "obsolete-terms", "shorter-route-over-higher-ancestor", "tie", "no-common-ancestor", "diamond", "depth>255", "annotated-with-all-kinds"]
+        vec!["nontrivial", "obsolete-terms", "shorter-route-over-higher-ancestor", "tie", "no-common-ancestor", "diamond", "depth>255", "annotated-with-all-kinds", "ancestors>30"]
     }
     fn run_generated(&self, tier: Tier, seed: u64, n: u64, stats: &mut Stats) -> Option<(Value, Failure)> {
         run_typed(strategy(tier), seed, n, stats, check)
@@ -191,10 +231,10 @@ impl Property for C11 {
         replay_typed::<Facts, _>(case, stats, check)
     }
     fn isolated_plans(&self, tier: Tier, seed: u64) -> Vec<Value> {
-        let mult = [7919u32, 104_729][(seed % 2) as usize];
-        let mut out = vec![json!({"deep": (270u32, mult)})];
+        let _ = seed;
+        let mut out = vec![json!({"deep": (270u32, 7919u32)}), json!({"deep": (262u32, 104_729u32)})];
         if tier == Tier::Thorough {
-            out.push(json!({"deep": (600u32, mult)}));
+            out.push(json!({"deep": (600u32, 1_299_709u32)}));
         }
         out
     }
